@@ -420,12 +420,12 @@ def write_sites_before_guard(grd, f, summary_pairs):
         el = g.elements(b)
         lim = cut_at.get(b, len(el))
         for i, n in enumerate(el[:lim]):
-            if _writes_this(u, f, n, P):
+            if _writes_this(u, f, n, P, grd):
                 bad.append(n)
     return bad
 
 
-def _writes_this(u, f, n, P):
+def _writes_this(u, f, n, P, grd=None):
     if n["k"] in ("BinaryOperator", "CompoundAssignOperator") and (n.get("op", "").endswith("=") and
                                                                      n.get("op") not in ("==", "!=", "<=", ">=")):
         p = P.path(kids(n)[0])
@@ -440,10 +440,10 @@ def _writes_this(u, f, n, P):
         return False
     # a non-const member call on *this (or on one of its fields)
     callee = u.func_of(ci.decl["id"])
-    if callee is not None and callee.in_lib():
-        # in-place library operator: it is an entry point itself and is checked on its own
-        return ci.decl["name"] in ("operator=", "setData") or bool(ci.decl.get("copyassign") or
-                                                                   ci.decl.get("moveassign"))
+    if callee is not None and callee.in_lib() and grd is not None and is_entry(grd, callee):
+        # an in-place library operator with its own grid-carrying operands (+=): it is an entry point itself,
+        # its own guard precedes its own writes (checked on its own)
+        return False
     return True
 
 
